@@ -79,9 +79,13 @@ let gen_keyfile_case st =
   let lines = List.init n (fun i -> if rnd_int st 5 = 0 then Printf.sprintf "gone%d" i else Printf.sprintf "kf%d" i) in
   let existing = List.filter_map (fun name -> if String.sub name 0 2 = "kf" then
       (let (payload, v) = gen_value st in Some { key = name; payload; pttl = rnd_pick st [ -1; -1; 40000 ]; vanish = "-"; value = Some v }) else None) lines in
+  (* blank lines (a key named "" that does not exist): in the middle and at the end *)
+  let lines = if rnd_int st 3 = 0 && n > 0 then
+      (let pos = rnd_int st (n + 1) in List.concat (List.mapi (fun i l -> if i = pos then [ ""; l ] else [ l ]) lines) @ (if pos >= n || rnd_bool st then [ "" ] else []))
+    else lines in
   let extra = { key = "unlisted"; payload = fst (gen_value st); pttl = -1; vanish = "-"; value = None } in
   { base with policy = rnd_pick st [ "none"; "rewrite" ]; scancount = count; src = [ (db, [ existing @ [ extra ] ]) ]; keyfile = Some lines;
-              note = Printf.sprintf "key file of %d lines, scan.key_number %d" n count }
+              note = Printf.sprintf "key file of %d lines (%d blank), scan.key_number %d" (List.length lines) (List.length (List.filter (fun l -> l = "") lines)) count }
 
 let gen st tier = List.init (if tier = "thorough" then 2500 else 160) (fun _ -> gen_case st)
                   @ List.init (if tier = "thorough" then 300 else 24) (fun _ -> gen_keyfile_case st)
@@ -94,7 +98,12 @@ let corpus = [
   (* F26: SCAN returns a key twice, key_exists = none *)
   { base with policy = "none";
               src = (let k = { key = "k"; payload = lst [ "a" ]; pttl = -1; vanish = "-"; value = Some (LList [ bs "a" ]) } in [ (0, [ [ k ]; [ k ] ]) ]);
-              note = "F26 witness: a key returned twice by SCAN under key_exists=none" } ]
+              note = "F26 witness: a key returned twice by SCAN under key_exists=none" };
+  (* a key file with a blank line inside a page that is not the last one *)
+  { base with scancount = 4;
+              src = [ (0, [ List.init 10 (fun i -> { key = Printf.sprintf "kf%d" i; payload = lst [ string_of_int i ]; pttl = -1; vanish = "-"; value = Some (LList [ bs (string_of_int i) ]) }) ]) ];
+              keyfile = Some ([ "kf0"; "kf1"; "" ] @ List.init 8 (fun i -> Printf.sprintf "kf%d" (i + 2)));
+              note = "key file with a blank line in its first page" } ]
 
 let hexd = C02.hexd
 let hexl l = if l = [] then "-" else String.concat "," (List.map hex_of_string l)
